@@ -559,6 +559,14 @@ impl ErdosRenyi for AdjacencyMap {
                 let mut rng = Xoshiro256StarStar::new(thread_seed);
                 let mut local_results = Vec::with_capacity(end - start);
 
+                #[cfg(feature = "verif")]
+                crate::verif::span(
+                    crate::verif::AM_ERDOS_RENYI,
+                    crate::verif::BEGIN,
+                    start,
+                    end,
+                );
+
                 for u in start..end {
                     let mut out_neighbors = BTreeSet::new();
 
@@ -570,6 +578,14 @@ impl ErdosRenyi for AdjacencyMap {
 
                     local_results.push((u, out_neighbors));
                 }
+
+                #[cfg(feature = "verif")]
+                crate::verif::span(
+                    crate::verif::AM_ERDOS_RENYI,
+                    crate::verif::END,
+                    start,
+                    end,
+                );
 
                 local_results
             });
@@ -1061,6 +1077,14 @@ impl RandomTournament for AdjacencyMap {
             let handle = spawn(move || {
                 let mut rng = Xoshiro256StarStar::new(thread_seed);
 
+                #[cfg(feature = "verif")]
+                crate::verif::span(
+                    crate::verif::AM_RANDOM_TOURNAMENT,
+                    crate::verif::BEGIN,
+                    start,
+                    end,
+                );
+
                 for u in start..end {
                     for v in (u + 1)..order {
                         unsafe {
@@ -1080,6 +1104,14 @@ impl RandomTournament for AdjacencyMap {
                         }
                     }
                 }
+
+                #[cfg(feature = "verif")]
+                crate::verif::span(
+                    crate::verif::AM_RANDOM_TOURNAMENT,
+                    crate::verif::END,
+                    start,
+                    end,
+                );
             });
 
             handles.push(handle);
@@ -1287,6 +1319,22 @@ impl Union for AdjacencyMap {
                 handles.push(s.spawn(move || {
                     let mut local = Vec::new();
 
+                    #[cfg(feature = "verif")]
+                    crate::verif::span(
+                        crate::verif::AM_UNION_LHS,
+                        crate::verif::BEGIN,
+                        i_start,
+                        i_end,
+                    );
+
+                    #[cfg(feature = "verif")]
+                    crate::verif::span(
+                        crate::verif::AM_UNION_RHS,
+                        crate::verif::BEGIN,
+                        j_start,
+                        j_end,
+                    );
+
                     unsafe {
                         let lhs_ptr = lhs_slice.as_ptr();
                         let rhs_ptr = rhs_slice.as_ptr();
@@ -1325,6 +1373,22 @@ impl Union for AdjacencyMap {
                             }
                         }
                     }
+
+                    #[cfg(feature = "verif")]
+                    crate::verif::span(
+                        crate::verif::AM_UNION_LHS,
+                        crate::verif::END,
+                        i_start,
+                        i_end,
+                    );
+
+                    #[cfg(feature = "verif")]
+                    crate::verif::span(
+                        crate::verif::AM_UNION_RHS,
+                        crate::verif::END,
+                        j_start,
+                        j_end,
+                    );
 
                     local
                 }));
